@@ -1432,9 +1432,8 @@ def discoverer_family(ctx, rng, tag):
     `Lines.discover` and an independent oracle, on symbol listings whose lines have every length around every size the line
     buffer can have. The theorems (C20_line_of_any_length, C20_listing_read_whole, C09_discovery) hold for every initial
     size from 3 bytes; the size in the source is read here and checked against that hypothesis."""
-    src = open(os.path.join(REPO, "tools", "discoverer.c")).read()
-    m = re.search(r"add_all_tests_from\(.*?\bint\s+size\s*=\s*(\d+)\s*;", src, re.S)
-    size0 = int(m.group(1)) if m else None
+    import readloops as rl0
+    size0 = rl0.initial_size()      # the `&size` the caller hands to read_whole_line(), from the AST (after macro expansion)
     ctx.oblige("the discoverer's line buffer starts at a constant size of at least 3 bytes (hypothesis of C20_line_of_any_length and C09_discovery)",
                size0 is not None and size0 >= 3, f"size: {size0}")
     if not size0 or size0 < 3:
